@@ -839,6 +839,8 @@ class Walker:
                     self.assign_target(te, ('sub', v, ('const', i)), st)
             return
         if isinstance(t, (ast.Attribute, ast.Subscript)):
+            if self.local_container_update(t, st):
+                return
             # store to an object: recorded as a call-like effect
             self.t.calls.append((('store', self.ex(t), v), self.gen, self.dsl, st.lineno))
             return
@@ -872,6 +874,14 @@ class Walker:
         elif isinstance(t, ast.Subscript) and isinstance(t.value, ast.Attribute) and self.is_m(t.value.value) \
                 and t.value.attr == "d" and isinstance(t.slice, ast.Constant):
             dom = t.slice.value
+        elif isinstance(t, ast.Subscript) and isinstance(t.value, ast.Attribute) and self.is_m(t.value.value) and t.value.attr == "d":
+            # m.d[domain] with the domain held in a variable (a row of a literal table): known when it evaluates to a constant
+            dv = ir.norm(self.ex(t.slice))
+            if dv[0] == 'const' and isinstance(dv[1], str):
+                dom = dv[1]
+            else:
+                self.unsupported(st, f"m.d[{ast.unparse(t.slice)}]: the clock domain is not a constant here")
+                return
         if dom is not None and isinstance(st.op, ast.Add):
             return self.emit(dom, st.value, st)
         if isinstance(t, ast.Attribute) and self.is_m(t.value) and t.attr == "submodules":
@@ -891,8 +901,30 @@ class Walker:
             op = ir.BINOPS[type(st.op)]
             self.assign_target(ast.Name(id=t.id, ctx=ast.Store()), ('bin', op, self.env[t.id], term), st)
             return
+        if self.local_container_update(t, st):
+            return
         self.t.calls.append((('augstore', self.ex(t), ir.BINOPS[type(st.op)], self.ex(st.value)),
                              self.gen, self.dsl, st.lineno))
+
+    def local_container_update(self, t, st):
+        """xs[k] = v / d[k] |= v on a *local* list or dict of an elaborate(): the walker keeps the container's value as written
+        at its definition, so everything read from it later would be stale.  Reported as unsupported (undecided), never
+        silently ignored."""
+        if self.m is None or not isinstance(t, ast.Subscript):
+            return False
+        root = t.value
+        while isinstance(root, ast.Subscript):
+            root = root.value
+        if isinstance(root, ast.Name) and root.id in self.env and root.id != "self":
+            cur = self.env[root.id]
+            base = cur
+            while base[0] in ('attr', 'sub'):
+                base = base[1]
+            if base in (('name', 'self'),) or cur[0] in ('name', 'obj'):
+                return False                            # an alias of component state / a parameter: an ordinary store
+            self.unsupported(st, f"in-place update of the local container `{root.id}` (its later reads are not modelled)")
+            return True
+        return False
 
     def emit(self, domain, value_node, st):
         items = value_node.elts if isinstance(value_node, (ast.List, ast.Tuple)) else [value_node]
@@ -949,6 +981,14 @@ class Walker:
                     self.unsupported(st, f"DSL statement is not an .eq(): {ir.show(e)[:60]}")
 
     def emit_driver(self, domain, tgt, val, lineno):
+        # a target chosen by name at generation time (getattr(bus, <variable>)) could be any member of that object: nothing can
+        # be said about "is X driven" while such a driver exists
+        try:
+            tn = ir.norm(tgt)
+        except Exception:
+            tn = tgt
+        if any(x[0] == 'call' and x[1] == ('name', 'getattr') and len(x[2]) >= 2 and x[2][1][0] != 'const' for x in ir.walk(tn)):
+            self.t.unsupported.append((lineno, f"driver with a target selected by name at generation time: {ir.show(tn)[:60]}"))
         # a plain statement closes any open If chain at this depth
         self.chain[self.dsl] = None
         # hoisting: directly inside a Switch body -> goes to the enclosing scope
@@ -1144,6 +1184,54 @@ class Walker:
         if isinstance(st.iter, (ast.Tuple, ast.List)) and 0 < len(st.iter.elts) <= 8 and \
                 not any(isinstance(e, ast.Starred) for e in st.iter.elts):
             return self.for_literal(st, st.iter.elts)
+        # a local name bound once to a literal table of rows (tuples of constants / names / attribute chains) and never
+        # touched again: the same unrolling
+        if isinstance(st.iter, ast.Name) and self.env.get(st.iter.id, ('x',))[0] in ('tuple', 'list'):
+            nm = st.iter.id
+            defs = [n for n in ast.walk(self.fi.node) if isinstance(n, ast.Assign) and len(n.targets) == 1 and
+                    isinstance(n.targets[0], ast.Name) and n.targets[0].id == nm]
+            uses = [n for n in ast.walk(self.fi.node) if isinstance(n, ast.Name) and n.id == nm]
+
+            def plain(e):
+                return isinstance(e, ast.Constant) or (isinstance(e, ast.Name)) or (isinstance(e, ast.Attribute) and plain(e.value)) or \
+                    (isinstance(e, (ast.Tuple, ast.List)) and all(plain(x) for x in e.elts))
+            if len(defs) == 1 and isinstance(defs[0].value, (ast.Tuple, ast.List)) and 0 < len(defs[0].value.elts) <= 8 and \
+                    all(isinstance(e, (ast.Tuple, ast.List)) and plain(e) for e in defs[0].value.elts) and \
+                    sum(1 for n in uses if isinstance(n.ctx, ast.Store)) == 1 and \
+                    not any(isinstance(n, ast.Name) and isinstance(n.ctx, ast.Store) and n.id in
+                            {x.id for e in defs[0].value.elts for x in ast.walk(e) if isinstance(x, ast.Name)}
+                            for n in ast.walk(self.fi.node)):
+                return self.for_literal(st, defs[0].value.elts)
+        # for k, v in D.items() / for k in D / for v in D.values() with D a local dict display bound once: the rows in order
+        dn = None
+        if isinstance(st.iter, ast.Call) and isinstance(st.iter.func, ast.Attribute) and isinstance(st.iter.func.value, ast.Name) and \
+                st.iter.func.attr in ("items", "values", "keys") and not st.iter.args and not st.iter.keywords:
+            dn, dmode = st.iter.func.value.id, st.iter.func.attr
+        if dn is not None and self.env.get(dn, ('x',))[0] == 'dict':
+            defs = [n for n in ast.walk(self.fi.node) if isinstance(n, ast.Assign) and len(n.targets) == 1 and
+                    isinstance(n.targets[0], ast.Name) and n.targets[0].id == dn]
+            stores = [n for n in ast.walk(self.fi.node) if isinstance(n, ast.Name) and n.id == dn and isinstance(n.ctx, (ast.Store, ast.Del))]
+            touched = [n for n in ast.walk(self.fi.node) if isinstance(n, ast.Subscript) and isinstance(n.value, ast.Name) and n.value.id == dn and
+                       isinstance(n.ctx, (ast.Store, ast.Del))] + \
+                      [n for n in ast.walk(self.fi.node) if isinstance(n, ast.Call) and isinstance(n.func, ast.Attribute) and
+                       isinstance(n.func.value, ast.Name) and n.func.value.id == dn and n.func.attr in ("update", "pop", "setdefault", "clear", "popitem")]
+            if len(defs) == 1 and len(stores) == 1 and not touched and isinstance(defs[0].value, ast.Dict) and 0 < len(defs[0].value.keys) <= 8 and \
+                    all(k is not None for k in defs[0].value.keys):
+                dv = defs[0].value
+                # the values are evaluated where the display is written; they are replayed through temporaries bound there
+                if dmode == "items":
+                    elts = [ast.copy_location(ast.Tuple(elts=[k, v], ctx=ast.Load()), st) for k, v in zip(dv.keys, dv.values)]
+                elif dmode == "values":
+                    elts = list(dv.values)
+                else:
+                    elts = list(dv.keys)
+                names_in = {x.id for e in elts for x in ast.walk(e) if isinstance(x, ast.Name)}
+                rebound = any(isinstance(n, ast.Name) and isinstance(n.ctx, ast.Store) and n.id in names_in and n.lineno > defs[0].lineno
+                              for n in ast.walk(self.fi.node))
+                if not rebound:
+                    for e in elts:
+                        ast.fix_missing_locations(e)
+                    return self.for_literal(st, elts)
         # iteration over an append-built list (or a zip of such lists)
         src = st.iter
         names_ = []
@@ -1156,20 +1244,53 @@ class Walker:
             return self.for_listacc(st, [self.t.lists[self.env[nm][1]] for nm in names_])
         if isinstance(st.iter, ast.Call):
             outer = {"env": None}
+            # variables of the consuming body that carry a value from one iteration to the next (read before they are written):
+            # they are loop-carried with respect to the loop *inside the generator* that the yield sits in
+            tnames = ir_names(st.target)
+            carried_names = [nm for nm, sites in self.assigned_names(st.body).items()
+                             if nm not in tnames and nm in self.env and self.read_before_write(nm, st.body) and
+                             not all(self.is_or_update(nm, s) for s in sites) and self.env[nm][0] != 'acc']
+            loop_gen = self.gen
+            folds = {}
+            yields_seen = [0]
+            gen_loops = set()
 
             def consume(val, yst):
                 gen_env, gen_bc = self.env, self.bind_ctx
                 value = self.ex(val)
                 self.env, self.bind_ctx = outer["env"], outer["bc"]
                 handlers, self.yield_handlers = self.yield_handlers, []
+                yields_seen[0] += 1
+                gen_loops.update(fr[1] for fr in self.gen[len(loop_gen):] if fr[0] == 'for')
+                if carried_names:
+                    extra = [fr for fr in self.gen[len(loop_gen):] if fr[0] == 'for']
+                    if yields_seen[0] > 1 or len(extra) != 1:
+                        self.unsupported(st, "a variable carried from one iteration to the next across a generator with several yield "
+                                             "sites (or a yield outside a single loop)")
+                    else:
+                        for nm in carried_names:
+                            fid = self.fresh()
+                            fold = Fold(fid, nm, self.env[nm], extra[0][1])
+                            self.t.folds[fid] = fold
+                            self.env[nm] = ('carry', fid)
+                            folds[nm] = fold
                 self.assign_target(st.target, value, st)
                 self.block(st.body)
+                for nm, fold in folds.items():
+                    if getattr(fold, "update", None) is None or fold.update == ('undef',):
+                        fold.update = self.env.get(nm, ('undef',))
+                        self.env[nm] = ('final', fold.id)
                 self.yield_handlers = handlers
                 outer["env"], outer["bc"] = self.env, self.bind_ctx
                 self.env, self.bind_ctx = gen_env, gen_bc
             outer["env"], outer["bc"] = dict(self.env), dict(self.bind_ctx)
             if self.inline_generator(st.iter, st, on_yield=consume, private_only=True):
                 self.env, self.bind_ctx = outer["env"], outer["bc"]
+                # the loop's own targets, read after the loop, denote the values of the last iteration
+                if yields_seen[0] == 1 and len(gen_loops) == 1:
+                    for nm in tnames:
+                        if nm in self.env:
+                            self.env[nm] = ir.subst(self.env[nm], lambda x: ('last', x) if x[0] == 'idx' and x[1] in gen_loops else None)
                 return
         it = self.ex(st.iter)
         # loop fission: a second loop over the same (pure, self-derived) iterable in the same generation context walks
